@@ -6,7 +6,7 @@ import itertools
 
 from hypothesis import strategies as st
 
-from vf.common import Check, Violation, require
+from vf.common import Check, HarnessError, Violation, require
 from vf.strategies import LOOKALIKES, SINU_SPELLINGS, SPELLINGS, mk_crs, mk_crs_spec, simple_tag
 
 RULE = (
@@ -88,6 +88,8 @@ def mk_shape(spec):
     from shapely import geometry as G
 
     typ, coords = spec
+    if typ == "Empty":
+        return getattr(G, coords)()
     if typ == "GeometryCollection":
         return G.GeometryCollection([mk_shape(tuple(s)) for s in coords])
     if typ == "Polygon":
@@ -168,6 +170,8 @@ def o_geom(case, T):
     geoms = [OG.Geometry(s, mk_crs_spec(t)) for s, t in zip(shapes, tags)]
     ref_crs = mk_crs(tags[0])
 
+    if "empty_member" in case:
+        T.cls("empty_member_first" if case["empty_member"] == 0 else "empty_member_later")
     if op in NARY:
         fns = {
             "multigeom": lambda: OG.multigeom(geoms),
@@ -332,6 +336,24 @@ def e_nary(tier):
                             kinds = [["polygon", "polygon_hole"][(j + k0) % 2] for j in range(n)]
                         shapes = [list((GALLERY_A if j % 2 == 0 else GALLERY_B)[k]) for j, k in enumerate(kinds)]
                         yield {"op": op, "tags": tags, "kinds": kinds, "shapes": shapes}
+
+
+    # legal empty members (a disjoint intersection, a filtered selection) anywhere in the collection, first place
+    # included: an empty geometry still carries its CRS and still takes part in the CRS check
+    for op in ("multigeom", "common_crs", "unary_union", "unary_intersection"):
+        for n in (2, 3):
+            for tp in pairs:
+                base, odd = tp
+                for pos in range(n):
+                    tags = [base] * n
+                    tags[pos] = odd
+                    for epos in range(n):
+                        for ek in ("Polygon",) if op != "common_crs" else ("Polygon", "LineString", "Point"):
+                            kinds = ["polygon", "polygon_hole", "polygon"][:n]
+                            shapes = [list((GALLERY_A if j % 2 == 0 else GALLERY_B)[k]) for j, k in enumerate(kinds)]
+                            shapes[epos] = ["Empty", ek]
+                            kinds[epos] = "empty_" + ek
+                            yield {"op": op, "tags": tags, "kinds": kinds, "shapes": shapes, "empty_member": epos}
 
 
 # --------------------------------------------------------------------- Hypothesis shapes
@@ -518,6 +540,82 @@ def o_introspect(case, T):
     T.nontrivial("registry")
 
 
+# --------------------------------------------------------------------- CRSs without an authority code, and their history
+AUTHLESS = {
+    "sinu": "+proj=sinu +lon_0=0 +x_0=0 +y_0=0 +R=6371007.181 +units=m +no_defs +type=crs",
+    "sinu_r6371000": "+proj=sinu +lon_0=0 +x_0=0 +y_0=0 +R=6371000 +units=m +no_defs +type=crs",
+    "moll": "ESRI:54009",
+    "laea_custom": "+proj=laea +lat_0=50 +lon_0=10 +x_0=0 +y_0=0 +ellps=GRS80 +units=m +no_defs +type=crs",
+    "omerc_custom": "+proj=omerc +lat_0=4 +lonc=115 +alpha=53 +gamma=53 +k=0.99984 +x_0=0 +y_0=0 +ellps=GRS80 +units=m +no_defs +type=crs",
+}
+PRE_STEPS = ["none", "epsg_both", "epsg_first", "epsg_second", "xr_coords_both", "str_and_hash_both"]
+
+
+def o_authless(case, T):
+    """Whether somebody already asked a CRS object for its EPSG code (logging, metadata; building xarray coordinates
+    does it implicitly) must not change the verdict: different CRSs -> every combining operation raises; the same
+    CRS given twice -> none raises."""
+    import pyproj
+    from affine import Affine
+    from odc.geo import geobox as GB
+    from odc.geo import geom as OG
+    from odc.geo.crs import CRS
+    from odc.geo.geobox import GeoBox
+    from odc.geo.xr import xr_coords
+
+    la, lb, pre = case["a"], case["b"], case["pre"]
+    pa, pb = pyproj.CRS.from_user_input(AUTHLESS[la]), pyproj.CRS.from_user_input(AUTHLESS[lb])
+    differ = pa != pb
+    if differ != (la != lb):
+        raise HarnessError("pyproj verdict on %s vs %s" % (la, lb))
+    if pa.to_epsg() is not None and pb.to_epsg() is not None:
+        T.exclude("both_match_an_epsg_code_approximately")  # C19's subject (D36)
+        return
+    ca, cb = CRS(AUTHLESS[la]), CRS(pb.to_wkt(version="WKT2_2019") if case["b_as_wkt"] else AUTHLESS[lb])
+    ga = GeoBox((4, 5), Affine(1000.0, 0, 0.0, 0, -1000.0, 9000.0), ca)
+    gb = GeoBox((4, 5), Affine(1000.0, 0, 2000.0, 0, -1000.0, 8000.0), cb)
+    if pre == "epsg_both":
+        _ = ca.epsg, cb.epsg
+    elif pre == "epsg_first":
+        _ = ca.epsg
+    elif pre == "epsg_second":
+        _ = cb.to_epsg()
+    elif pre == "xr_coords_both":
+        xr_coords(ga), xr_coords(gb)
+    elif pre == "str_and_hash_both":
+        _ = str(ca), hash(ca), str(cb), hash(cb), ca.to_wkt(), cb.to_wkt()
+    a = OG.box(0, 0, 2_000_000, 2_000_000, ca)
+    b = OG.box(1_000_000, 1_000_000, 3_000_000, 3_000_000, cb)
+    cut = OG.line([(-10, 1_500_000), (5_000_000, 1_500_000)], cb)
+    ba, bb = OG.BoundingBox(0, 0, 2, 2, ca), OG.BoundingBox(1, 1, 3, 3, cb)
+    ops = [(m, (lambda m=m: getattr(a, m)(b))) for m in _binary_methods() if m != "split"]  # split is lazy: listed below
+    ops += [("split", lambda: list(a.split(cut))), ("fn_intersects", lambda: OG.intersects(a, b)), ("multigeom", lambda: OG.multigeom([a, b])),
+            ("common_crs", lambda: OG.common_crs([a, b])), ("unary_union", lambda: OG.unary_union([a, b])), ("unary_intersection", lambda: OG.unary_intersection([a, b])),
+            ("bbox_or", lambda: ba | bb), ("bbox_and", lambda: ba & bb), ("bbox_union", lambda: OG.bbox_union([ba, bb])), ("bbox_intersection", lambda: OG.bbox_intersection([ba, bb])),
+            ("gbox_or", lambda: ga | gb), ("gbox_and", lambda: ga & gb), ("overlap_roi", lambda: ga.overlap_roi(gb)), ("snap_to", lambda: ga.snap_to(gb)),
+            ("geobox_union_conservative", lambda: GB.geobox_union_conservative([ga, gb])), ("geobox_intersection_conservative", lambda: GB.geobox_intersection_conservative([ga, gb]))]
+    for name, fn in ops:
+        st_, val = _run(fn)
+        if differ:
+            require(st_ == "err", "%s on operands tagged %s and %s (no authority codes; before: %s) returned %s instead of raising", name, la, lb, pre, str(val)[:80])
+            require(isinstance(val, ValueError), "%s on %s vs %s (before: %s) raised %s, expected a ValueError", name, la, lb, pre, type(val).__name__)
+        else:
+            require(st_ == "ok", "%s on two objects of the same CRS %s (before: %s) raised %s: %s", name, la, pre, type(val).__name__, str(val)[:80])
+    require((ca != cb) == differ and (ca == cb) == (not differ), "CRS %s == CRS %s is %r (before: %s)", la, lb, ca == cb, pre)
+    T.cls("pre:" + pre)
+    T.cls("differ" if differ else "same")
+    if pre != "none":
+        T.nontrivial((la, lb, pre, case["b_as_wkt"]))
+
+
+def e_authless(tier):
+    for a in AUTHLESS:
+        for b in AUTHLESS:
+            for pre in PRE_STEPS:
+                for w in (False, True):
+                    yield {"a": a, "b": b, "pre": pre, "b_as_wkt": w}
+
+
 def build(chk: Check) -> None:
     chk.sub("introspection", o_introspect, enum=lambda tier: [{}], exhaustive_tiers=("quick", "thorough"))
     chk.sub("binary_enum", o_geom, enum=e_binary, exhaustive_tiers=("thorough",), budget_s={"quick": 80, "thorough": 900})
@@ -526,3 +624,4 @@ def build(chk: Check) -> None:
     chk.sub("generated", o_geom, cov={"quick": 1500, "thorough": 120000}, strategy=s_generated(), n={"quick": 3000, "thorough": 200000})
     chk.sub("bbox_enum", o_bbox, enum=e_bbox, exhaustive_tiers=("quick", "thorough"))
     chk.sub("gbox_enum", o_gbox, enum=e_gbox, exhaustive_tiers=("quick", "thorough"))
+    chk.sub("authorityless_after_lookup", o_authless, enum=e_authless, exhaustive_tiers=("quick", "thorough"))
